@@ -122,7 +122,7 @@ struct ThreadLog {
 
 struct Shared {
 	chain: Chain,
-	sc: Scenario,
+	sc: Arc<Scenario>,
 	/// set once compaction has really pruned (then `Orphan` is a legitimate answer for old blocks)
 	compacted: AtomicBool,
 	in_flight: Vec<AtomicUsize>,
@@ -436,12 +436,14 @@ fn is_descendant(sc: &Scenario, mut b: usize, anc: usize) -> bool {
 
 struct RunCfg {
 	run: usize,
-	threads: usize,
+	/// thread counts of the concurrent runs made on this tree (one fresh subject chain each)
+	threads: Vec<usize>,
 	long: bool,
 }
 
 fn run(out: &mut Out, rng: &mut Rng, work: &str, cfg: &RunCfg, stats: &mut BTreeMap<String, u64>) {
 	let run = cfg.run;
+	let t_build = Instant::now();
 	out.raw("chain reset");
 	let kit = Kit::new(&format!("{}/builder{}", work, run));
 	let mut b = Builder { kit, states: BTreeMap::new(), stats: BTreeMap::new() };
@@ -533,7 +535,9 @@ fn run(out: &mut Out, rng: &mut Rng, work: &str, cfg: &RunCfg, stats: &mut BTree
 	}
 	// --- block templates: assembled on the best leaf and on another leaf, roots left to the subject
 	let mut templates = vec![];
-	for l in leaves.iter().take(2) {
+	let mut tmpl_parents: Vec<usize> = leaves.iter().cloned().take(2).collect();
+	tmpl_parents.push(trunk[trunk.len() / 2]);
+	for l in tmpl_parents.iter() {
 		let prev = kit.blks[*l].block.header.clone();
 		let key_id = grin_keychain::ExtKeychainPath::new(4, (run * 10) as u32 + templates.len() as u32, 0, 0, 0).to_identifier();
 		if let Ok(rw) = grin_core::libtx::reward::output(&kit.kc, &grin_core::libtx::ProofBuilder::new(&kit.kc), &key_id, 0, false) {
@@ -549,7 +553,7 @@ fn run(out: &mut Out, rng: &mut Rng, work: &str, cfg: &RunCfg, stats: &mut BTree
 	for l in kit.out_lines(0) {
 		out.raw(&l);
 	}
-	for id in 1..nblk {
+	for id in 0..nblk {
 		out.raw(&kit.blk_line(id));
 	}
 
@@ -559,7 +563,7 @@ fn run(out: &mut Out, rng: &mut Rng, work: &str, cfg: &RunCfg, stats: &mut BTree
 			kernels.push(k.excess);
 		}
 	}
-	let sc = Scenario {
+	let sc = Arc::new(Scenario {
 		blocks: kit.blks.iter().map(|r| r.block.clone()).collect(),
 		parent: kit.blks.iter().map(|r| r.parent).collect(),
 		by_hash: kit.by_hash.clone(),
@@ -568,258 +572,7 @@ fn run(out: &mut Out, rng: &mut Rng, work: &str, cfg: &RunCfg, stats: &mut BTree
 		txs,
 		templates,
 		max_height: kit.blks.iter().map(|r| r.height).max().unwrap(),
-	};
-
-	// --- per-thread programs
-	let n = cfg.threads;
-	let ndeliver = if n <= 2 { n } else { (n * 2 / 3).max(2) };
-	let mut progs: Vec<Vec<Op>> = vec![vec![]; n];
-	// every leaf's path is delivered by some thread (parents first); extra deliverers repeat a random leaf
-	let mut assign: Vec<Vec<usize>> = vec![vec![]; ndeliver];
-	for (i, l) in leaves.iter().enumerate() {
-		assign[i % ndeliver].push(*l);
-	}
-	for a in assign.iter_mut() {
-		if a.is_empty() {
-			a.push(leaves[rng.below(leaves.len() as u64) as usize]);
-		}
-	}
-	let nreads_per_deliver = if cfg.long { 1 } else { 3 };
-	let rand_read = |rng: &mut Rng, sc: &Scenario| -> Op {
-		match rng.below(12) {
-			0 | 1 => Op::ReadHead,
-			2 | 3 => Op::View,
-			4 | 5 => Op::GetUnspent(rng.below(sc.commits.len() as u64) as usize),
-			6 => Op::HeaderByHeight(rng.below(sc.max_height + 2)),
-			7 => Op::HeaderForOutput(rng.below(sc.commits.len() as u64) as usize),
-			8 => Op::KernelHeight(rng.below(sc.kernels.len() as u64) as usize),
-			9 | 10 if !sc.txs.is_empty() => Op::ValidateTx(rng.below(sc.txs.len() as u64) as usize),
-			_ => Op::ReadHead,
-		}
-	};
-	for (t, ls) in assign.iter().enumerate() {
-		let mut done: Vec<usize> = vec![];
-		for l in ls {
-			let path = path_to(kit, *l);
-			// one deliverer announces its headers first through sync_block_headers chunks
-			if t == 1 && !cfg.long {
-				for ch in path.chunks(4) {
-					progs[t].push(Op::SyncHeaders(ch.to_vec()));
-				}
-			}
-			for id in path {
-				if done.contains(&id) && !rng.chance(1, 8) {
-					continue;
-				}
-				if rng.chance(1, 4) {
-					progs[t].push(Op::Header(id));
-				}
-				progs[t].push(Op::Deliver(id));
-				done.push(id);
-				if rng.chance(1, 6) {
-					progs[t].push(Op::Deliver(id)); // duplicate
-				}
-				if rng.chance(1, nreads_per_deliver + 1) {
-					let op = rand_read(rng, &sc);
-					progs[t].push(op);
-				}
-			}
-		}
-	}
-	let total_deliver: usize = progs.iter().map(|p| p.len()).max().unwrap_or(10);
-	for t in ndeliver..n {
-		let nops = (total_deliver * 2).max(40).min(if cfg.long { 260 } else { 160 });
-		let service = t == n - 1; // the last thread is the "services" thread
-		for _ in 0..nops {
-			let op = if service {
-				match rng.below(14) {
-					0 | 1 if !sc.templates.is_empty() => Op::SetRoots(rng.below(sc.templates.len() as u64) as usize),
-					2 => Op::Segmenter,
-					3 | 4 => Op::Compact,
-					5 => Op::ValidateFast,
-					6 | 7 if !sc.txs.is_empty() => Op::ValidateTx(rng.below(sc.txs.len() as u64) as usize),
-					_ => rand_read(rng, &sc),
-				}
-			} else {
-				rand_read(rng, &sc)
-			};
-			progs[t].push(op);
-		}
-	}
-	if n <= 2 {
-		// no dedicated service thread: sprinkle the service ops over the deliverers
-		for t in 0..n {
-			for _ in 0..6 {
-				let op = match rng.below(6) {
-					0 if !sc.templates.is_empty() => Op::SetRoots(0),
-					1 => Op::Segmenter,
-					2 => Op::Compact,
-					3 => Op::ValidateFast,
-					_ => rand_read(rng, &sc),
-				};
-				let pos = rng.below(progs[t].len() as u64 + 1) as usize;
-				progs[t].insert(pos, op);
-			}
-		}
-	}
-
-	// --- run
-	let subject_dir = format!("{}/subject{}", work, run);
-	let _ = std::fs::remove_dir_all(&subject_dir);
-	let chain = init_chain(&subject_dir, kit.genesis.clone()).unwrap();
-	let shared = Arc::new(Shared {
-		chain,
-		sc,
-		compacted: AtomicBool::new(false),
-		in_flight: (0..n).map(|_| AtomicUsize::new(usize::MAX)).collect(),
 	});
-	let progs = Arc::new(progs);
-	let logs: Arc<Vec<Mutex<ThreadLog>>> = Arc::new((0..n).map(|_| Mutex::new(ThreadLog::default())).collect());
-	let (txc, rxc) = mpsc::channel::<usize>();
-	let start_gate = Arc::new(AtomicBool::new(false));
-	let t0 = Instant::now();
-	let mut handles = vec![];
-	for t in 0..n {
-		let sh = shared.clone();
-		let progs = progs.clone();
-		let logs = logs.clone();
-		let txc = txc.clone();
-		let gate = start_gate.clone();
-		let mut trng = Rng::new(rng.next() ^ (t as u64 * 0x9E37));
-		handles.push(std::thread::spawn(move || {
-			setup_globals();
-			while !gate.load(Ordering::Acquire) {
-				std::hint::spin_loop();
-			}
-			let mut log = ThreadLog::default();
-			for (i, op) in progs[t].iter().enumerate() {
-				perturb(&mut trng, &mut log);
-				sh.in_flight[t].store(i, Ordering::SeqCst);
-				let r = std::panic::catch_unwind(AssertUnwindSafe(|| exec(&sh, op, &mut log, t)));
-				if let Err(e) = r {
-					let msg = if let Some(s) = e.downcast_ref::<&str>() {
-						s.to_string()
-					} else if let Some(s) = e.downcast_ref::<String>() {
-						s.clone()
-					} else {
-						"?".to_string()
-					};
-					log.fails.push(format!("panic in thread {} during op #{} {:?}: {}", t, i, op, msg));
-				}
-			}
-			sh.in_flight[t].store(usize::MAX, Ordering::SeqCst);
-			*logs[t].lock().unwrap() = log;
-			let _ = txc.send(t);
-		}));
-	}
-	drop(txc);
-	start_gate.store(true, Ordering::Release);
-	// watchdog
-	let timeout = Duration::from_secs(if tier_thorough() { 600 } else { 180 });
-	let mut finished = 0;
-	while finished < n {
-		match rxc.recv_timeout(timeout.saturating_sub(t0.elapsed()).max(Duration::from_millis(1))) {
-			Ok(_) => finished += 1,
-			Err(_) => {
-				let inflight: Vec<String> = (0..n)
-					.filter_map(|t| {
-						let i = shared.in_flight[t].load(Ordering::SeqCst);
-						if i == usize::MAX {
-							None
-						} else {
-							Some(format!("t{}:#{}:{:?}", t, i, progs[t][i]))
-						}
-					})
-					.collect();
-				out.raw(&format!(
-					"#ORACLE-FAIL C17 deadlock-or-hang run={} seed={} threads={} after {:?}: ops in flight [{}]",
-					run,
-					seed_from_env(),
-					n,
-					t0.elapsed(),
-					inflight.join(" ; ")
-				));
-				out.flush();
-				std::process::exit(0);
-			}
-		}
-	}
-	for h in handles {
-		let _ = h.join();
-	}
-	let wall = t0.elapsed();
-
-	// --- collect
-	let sc = &shared.sc;
-	let mut head_changes = 0u64;
-	let mut reorgs = 0u64;
-	for t in 0..n {
-		let log = logs[t].lock().unwrap();
-		for f in &log.fails {
-			out.raw(&format!("#ORACLE-FAIL C17 run={} seed={} threads={}: {}", run, seed_from_env(), n, f));
-		}
-		for (k, v) in &log.results {
-			*stats.entry(format!("result:{}", k)).or_insert(0) += v;
-		}
-		for (i, nm) in ["none", "yield", "sleep", "spin"].iter().enumerate() {
-			*stats.entry(format!("perturb:{}", nm)).or_insert(0) += log.perturb[i];
-		}
-		*stats.entry("reader:head!=head_header(two snapshots)".into()).or_insert(0) += log.height_mismatch;
-		for w in log.heads.windows(2) {
-			head_changes += 1;
-			let (a, b2) = (sc.by_hash.get(&w[0].0), sc.by_hash.get(&w[1].0));
-			if let (Some(a), Some(b2)) = (a, b2) {
-				if !is_descendant(sc, *b2, *a) {
-					reorgs += 1;
-				}
-			}
-		}
-	}
-	*stats.entry("observed:head-changes-seen-by-readers".into()).or_insert(0) += head_changes;
-	*stats.entry("observed:reorgs-seen-by-readers".into()).or_insert(0) += reorgs;
-	for p in progs.iter() {
-		for op in p {
-			*stats.entry(format!("ops:{}", op.kind())).or_insert(0) += 1;
-		}
-	}
-	*stats.entry(format!("runs:threads={}", n)).or_insert(0) += 1;
-	*stats.entry("runs:wall_ms".into()).or_insert(0) += wall.as_millis() as u64;
-	for (k, v) in &b.stats {
-		*stats.entry(k.clone()).or_insert(0) += v;
-	}
-	if shared.compacted.load(Ordering::SeqCst) {
-		*stats.entry("runs:with-real-compaction-concurrent".into()).or_insert(0) += 1;
-	}
-
-	// --- final state
-	let subj = Subject { dir: subject_dir.clone(), chain: None, genesis: kit.genesis.clone() };
-	let c = &shared.chain;
-	let v = c.validate(false);
-	if v.is_err() {
-		out.raw(&format!("#ORACLE-FAIL C17 run={} seed={} threads={}: validate(false) failed after the concurrent run: {}", run, seed_from_env(), n, cls(&v)));
-	}
-	let head = c.head().unwrap();
-	let hhead = c.header_head().unwrap();
-	let mut u = vec![];
-	for o in &kit.outs {
-		if let Ok(Some(_)) = c.get_unspent(o.commit) {
-			u.push(format!("o{}", o.id));
-		}
-	}
-	let subj_obs = format!("head={} hhead={} utxo=[{}]", kit.bid(&head.last_block_h), kit.bid(&hhead.last_block_h), u.join(","));
-	let subj_roots = {
-		let ts = c.txhashset();
-		let ts = ts.read();
-		let r = ts.roots().unwrap();
-		format!("{}:{}:{}:{}", hex(&r.output_roots.pmmr_root.as_bytes()[..8]), hex(&r.output_roots.bitmap_root.as_bytes()[..8]), hex(&r.rproof_root.as_bytes()[..8]), hex(&r.kernel_root.as_bytes()[..8]))
-	};
-	drop(subj);
-	if kit.bid(&head.last_block_h) != format!("b{}", best) {
-		out.raw(&format!(
-			"#ORACLE-FAIL C17 run={} seed={} threads={}: final head {} is not the unique max-work delivered block b{}",
-			run, seed_from_env(), n, kit.bid(&head.last_block_h), best
-		));
-	}
 
 	// --- sequential twin: same blocks, creation order (parents first), one thread
 	let twin_name = format!("cw{}", run);
@@ -831,30 +584,293 @@ fn run(out: &mut Out, rng: &mut Rng, work: &str, cfg: &RunCfg, stats: &mut BTree
 	}
 	let twin_obs = twin.obs(kit);
 	out.line(&format!("chain obs {}", twin_name), &twin_obs);
-	// the final-state comparison: the concurrently used chain must be in the state the model
-	// predicts for the sequentially fed twin
-	out.line(&format!("chain obs {}", twin_name), &subj_obs);
-	if twin_obs != subj_obs {
-		out.raw(&format!(
-			"#ORACLE-FAIL C17 run={} seed={} threads={}: final state differs from the sequentially fed twin: concurrent {} / sequential {}",
-			run, seed_from_env(), n, subj_obs, twin_obs
-		));
-	}
 	let twin_roots = twin.roots();
-	if twin_roots != subj_roots {
-		out.raw(&format!(
-			"#ORACLE-FAIL C17 run={} seed={} threads={}: final MMR roots differ from the sequentially fed twin: {} / {}",
-			run, seed_from_env(), n, subj_roots, twin_roots
-		));
+	drop(twin);
+	if std::env::var("VERIF_DEBUG").is_ok() {
+		eprintln!("run {} build+twin {:?}", run, t_build.elapsed());
 	}
 
-	// --- the model's transition system on the op sequences really run
-	let progs_s: Vec<String> = progs
-		.iter()
-		.map(|p| p.iter().flat_map(|op| op.table_ops()).collect::<Vec<_>>().join("+"))
-		.collect();
-	out.line(&format!("conc sim seed={} progs={}", rng.below(1 << 30), progs_s.join(",")), "finished");
-	out.flush();
+	for &nthreads in &cfg.threads {
+		// --- per-thread programs
+		let n = nthreads;
+		let ndeliver = if n <= 2 { n } else { (n * 2 / 3).max(2) };
+		let mut progs: Vec<Vec<Op>> = vec![vec![]; n];
+		// every leaf's path is delivered by some thread (parents first); extra deliverers repeat a random leaf
+		let mut assign: Vec<Vec<usize>> = vec![vec![]; ndeliver];
+		for (i, l) in leaves.iter().enumerate() {
+			assign[i % ndeliver].push(*l);
+		}
+		for a in assign.iter_mut() {
+			if a.is_empty() {
+				a.push(leaves[rng.below(leaves.len() as u64) as usize]);
+			}
+		}
+		let nreads_per_deliver = if cfg.long { 1 } else { 3 };
+		let rand_read = |rng: &mut Rng, sc: &Scenario| -> Op {
+			match rng.below(12) {
+				0 | 1 => Op::ReadHead,
+				2 | 3 => Op::View,
+				4 | 5 => Op::GetUnspent(rng.below(sc.commits.len() as u64) as usize),
+				6 => Op::HeaderByHeight(rng.below(sc.max_height + 2)),
+				7 => Op::HeaderForOutput(rng.below(sc.commits.len() as u64) as usize),
+				8 => Op::KernelHeight(rng.below(sc.kernels.len() as u64) as usize),
+				9 | 10 if !sc.txs.is_empty() => Op::ValidateTx(rng.below(sc.txs.len() as u64) as usize),
+				_ => Op::ReadHead,
+			}
+		};
+		for (t, ls) in assign.iter().enumerate() {
+			let mut done: Vec<usize> = vec![];
+			for l in ls {
+				let path = path_to(kit, *l);
+				// one deliverer announces its headers first through sync_block_headers chunks
+				if t == 1 && !cfg.long {
+					for ch in path.chunks(4) {
+						progs[t].push(Op::SyncHeaders(ch.to_vec()));
+					}
+				}
+				for id in path {
+					if done.contains(&id) && !rng.chance(1, 8) {
+						continue;
+					}
+					if rng.chance(1, 4) {
+						progs[t].push(Op::Header(id));
+					}
+					progs[t].push(Op::Deliver(id));
+					done.push(id);
+					if rng.chance(1, 6) {
+						progs[t].push(Op::Deliver(id)); // duplicate
+					}
+					if rng.chance(1, nreads_per_deliver + 1) {
+						let op = rand_read(rng, &sc);
+						progs[t].push(op);
+					}
+				}
+			}
+		}
+		let total_deliver: usize = progs.iter().map(|p| p.len()).max().unwrap_or(10);
+		for t in ndeliver..n {
+			let nops = (total_deliver * 2).max(40).min(if cfg.long { 260 } else { 160 });
+			let service = t == n - 1; // the last thread is the "services" thread
+			for _ in 0..nops {
+				let op = if service {
+					match rng.below(14) {
+						0 | 1 if !sc.templates.is_empty() => Op::SetRoots(rng.below(sc.templates.len() as u64) as usize),
+						2 => Op::Segmenter,
+						3 | 4 => Op::Compact,
+						5 => Op::ValidateFast,
+						6 | 7 if !sc.txs.is_empty() => Op::ValidateTx(rng.below(sc.txs.len() as u64) as usize),
+						_ => rand_read(rng, &sc),
+					}
+				} else {
+					rand_read(rng, &sc)
+				};
+				progs[t].push(op);
+			}
+		}
+		if n <= 2 {
+			// no dedicated service thread: sprinkle the service ops over the deliverers
+			for t in 0..n {
+				for _ in 0..6 {
+					let op = match rng.below(6) {
+						0 if !sc.templates.is_empty() => Op::SetRoots(0),
+						1 => Op::Segmenter,
+						2 => Op::Compact,
+						3 => Op::ValidateFast,
+						_ => rand_read(rng, &sc),
+					};
+					let pos = rng.below(progs[t].len() as u64 + 1) as usize;
+					progs[t].insert(pos, op);
+				}
+			}
+		}
+
+		// --- run
+		let subject_dir = format!("{}/subject{}_{}", work, run, n);
+		let _ = std::fs::remove_dir_all(&subject_dir);
+		let chain = init_chain(&subject_dir, kit.genesis.clone()).unwrap();
+		let shared = Arc::new(Shared {
+			chain,
+			sc: sc.clone(),
+			compacted: AtomicBool::new(false),
+			in_flight: (0..n).map(|_| AtomicUsize::new(usize::MAX)).collect(),
+		});
+		let progs = Arc::new(progs);
+		let logs: Arc<Vec<Mutex<ThreadLog>>> = Arc::new((0..n).map(|_| Mutex::new(ThreadLog::default())).collect());
+		let (txc, rxc) = mpsc::channel::<usize>();
+		let start_gate = Arc::new(AtomicBool::new(false));
+		let t0 = Instant::now();
+		let mut handles = vec![];
+		for t in 0..n {
+			let sh = shared.clone();
+			let progs = progs.clone();
+			let logs = logs.clone();
+			let txc = txc.clone();
+			let gate = start_gate.clone();
+			let mut trng = Rng::new(rng.next() ^ (t as u64 * 0x9E37));
+			handles.push(std::thread::spawn(move || {
+				setup_globals();
+				while !gate.load(Ordering::Acquire) {
+					std::hint::spin_loop();
+				}
+				let mut log = ThreadLog::default();
+				for (i, op) in progs[t].iter().enumerate() {
+					perturb(&mut trng, &mut log);
+					sh.in_flight[t].store(i, Ordering::SeqCst);
+					let r = std::panic::catch_unwind(AssertUnwindSafe(|| exec(&sh, op, &mut log, t)));
+					if let Err(e) = r {
+						let msg = if let Some(s) = e.downcast_ref::<&str>() {
+							s.to_string()
+						} else if let Some(s) = e.downcast_ref::<String>() {
+							s.clone()
+						} else {
+							"?".to_string()
+						};
+						log.fails.push(format!("panic in thread {} during op #{} {:?}: {}", t, i, op, msg));
+					}
+				}
+				sh.in_flight[t].store(usize::MAX, Ordering::SeqCst);
+				*logs[t].lock().unwrap() = log;
+				let _ = txc.send(t);
+			}));
+		}
+		drop(txc);
+		start_gate.store(true, Ordering::Release);
+		// watchdog
+		let timeout = Duration::from_secs(if tier_thorough() { 600 } else { 180 });
+		let mut finished = 0;
+		while finished < n {
+			match rxc.recv_timeout(timeout.saturating_sub(t0.elapsed()).max(Duration::from_millis(1))) {
+				Ok(_) => finished += 1,
+				Err(_) => {
+					let inflight: Vec<String> = (0..n)
+						.filter_map(|t| {
+							let i = shared.in_flight[t].load(Ordering::SeqCst);
+							if i == usize::MAX {
+								None
+							} else {
+								Some(format!("t{}:#{}:{:?}", t, i, progs[t][i]))
+							}
+						})
+						.collect();
+					out.raw(&format!(
+						"#ORACLE-FAIL C17 deadlock-or-hang run={} seed={} threads={} after {:?}: ops in flight [{}]",
+						run,
+						seed_from_env(),
+						n,
+						t0.elapsed(),
+						inflight.join(" ; ")
+					));
+					out.flush();
+					std::process::exit(0);
+				}
+			}
+		}
+		for h in handles {
+			let _ = h.join();
+		}
+		let wall = t0.elapsed();
+		if std::env::var("VERIF_DEBUG").is_ok() {
+			eprintln!("run {} threads {} build {:?} concurrent {:?}", run, n, t_build.elapsed(), wall);
+		}
+
+		// --- collect
+		let mut head_changes = 0u64;
+		let mut reorgs = 0u64;
+		for t in 0..n {
+			let log = logs[t].lock().unwrap();
+			for f in &log.fails {
+				out.raw(&format!("#ORACLE-FAIL C17 run={} seed={} threads={}: {}", run, seed_from_env(), n, f));
+			}
+			for (k, v) in &log.results {
+				*stats.entry(format!("result:{}", k)).or_insert(0) += v;
+			}
+			for (i, nm) in ["none", "yield", "sleep", "spin"].iter().enumerate() {
+				*stats.entry(format!("perturb:{}", nm)).or_insert(0) += log.perturb[i];
+			}
+			*stats.entry("reader:head!=head_header(two snapshots)".into()).or_insert(0) += log.height_mismatch;
+			for w in log.heads.windows(2) {
+				head_changes += 1;
+				let (a, b2) = (sc.by_hash.get(&w[0].0), sc.by_hash.get(&w[1].0));
+				if let (Some(a), Some(b2)) = (a, b2) {
+					if !is_descendant(&sc, *b2, *a) {
+						reorgs += 1;
+					}
+				}
+			}
+		}
+		*stats.entry("observed:head-changes-seen-by-readers".into()).or_insert(0) += head_changes;
+		*stats.entry("observed:reorgs-seen-by-readers".into()).or_insert(0) += reorgs;
+		for p in progs.iter() {
+			for op in p {
+				*stats.entry(format!("ops:{}", op.kind())).or_insert(0) += 1;
+			}
+		}
+		*stats.entry(format!("runs:threads={}", n)).or_insert(0) += 1;
+		*stats.entry("runs:wall_ms".into()).or_insert(0) += wall.as_millis() as u64;
+		for (k, v) in &b.stats {
+			*stats.entry(k.clone()).or_insert(0) += v;
+		}
+		if shared.compacted.load(Ordering::SeqCst) {
+			*stats.entry("runs:with-real-compaction-concurrent".into()).or_insert(0) += 1;
+		}
+
+		// --- final state
+		let subj = Subject { dir: subject_dir.clone(), chain: None, genesis: kit.genesis.clone() };
+		let c = &shared.chain;
+		let v = c.validate(false);
+		if v.is_err() {
+			out.raw(&format!("#ORACLE-FAIL C17 run={} seed={} threads={}: validate(false) failed after the concurrent run: {}", run, seed_from_env(), n, cls(&v)));
+		}
+		let head = c.head().unwrap();
+		let hhead = c.header_head().unwrap();
+		let mut u = vec![];
+		for o in &kit.outs {
+			if let Ok(Some(_)) = c.get_unspent(o.commit) {
+				u.push(format!("o{}", o.id));
+			}
+		}
+		let subj_obs = format!("head={} hhead={} utxo=[{}]", kit.bid(&head.last_block_h), kit.bid(&hhead.last_block_h), u.join(","));
+		let subj_roots = {
+			let ts = c.txhashset();
+			let ts = ts.read();
+			let r = ts.roots().unwrap();
+			format!("{}:{}:{}:{}", hex(&r.output_roots.pmmr_root.as_bytes()[..8]), hex(&r.output_roots.bitmap_root.as_bytes()[..8]), hex(&r.rproof_root.as_bytes()[..8]), hex(&r.kernel_root.as_bytes()[..8]))
+		};
+		drop(subj);
+		if kit.bid(&head.last_block_h) != format!("b{}", best) {
+			out.raw(&format!(
+				"#ORACLE-FAIL C17 run={} seed={} threads={}: final head {} is not the unique max-work delivered block b{}",
+				run, seed_from_env(), n, kit.bid(&head.last_block_h), best
+			));
+		}
+
+		// the final-state comparison: the concurrently used chain must be in the state the model
+		// predicts for the sequentially fed twin
+		out.line(&format!("chain obs {}", twin_name), &subj_obs);
+		if twin_obs != subj_obs {
+			out.raw(&format!(
+				"#ORACLE-FAIL C17 run={} seed={} threads={}: final state differs from the sequentially fed twin: concurrent {} / sequential {}",
+				run, seed_from_env(), n, subj_obs, twin_obs
+			));
+		}
+		if twin_roots != subj_roots {
+			out.raw(&format!(
+				"#ORACLE-FAIL C17 run={} seed={} threads={}: final MMR roots differ from the sequentially fed twin: {} / {}",
+				run, seed_from_env(), n, subj_roots, twin_roots
+			));
+		}
+
+		if std::env::var("VERIF_DEBUG").is_ok() {
+			eprintln!("run {} total {:?}", run, t_build.elapsed());
+		}
+		// --- the model's transition system on the op sequences really run
+		let progs_s: Vec<String> = progs
+			.iter()
+			.map(|p| p.iter().flat_map(|op| op.table_ops()).collect::<Vec<_>>().join("+"))
+			.collect();
+		out.line(&format!("conc sim seed={} progs={}", rng.below(1 << 30), progs_s.join(",")), "finished");
+		out.flush();
+	}
 }
 
 fn main() {
@@ -899,15 +915,23 @@ fn main() {
 	let mut cfgs = vec![];
 	match mode {
 		"long" => {
+			// a trunk long enough for compaction to prune while the other threads run
 			let k = if thorough { 3 } else { 1 };
 			for i in 0..k {
-				cfgs.push(RunCfg { run: 100 + i, threads: [4, 6, 8][i % 3], long: true });
+				cfgs.push(RunCfg { run: 100 + i, threads: if thorough { vec![3, 5, 8] } else { vec![4, 7] }, long: true });
 			}
 		}
 		_ => {
-			let k = if thorough { 40 } else { 7 };
+			let k = if thorough { 12 } else { 2 };
 			for i in 0..k {
-				cfgs.push(RunCfg { run: i, threads: 2 + (i % 7), long: false });
+				let threads = if thorough {
+					vec![2, 3, 4, 5, 6, 7, 8, 8, 4, 2]
+				} else if i == 0 {
+					vec![2, 4, 6, 8]
+				} else {
+					vec![3, 5, 7, 8]
+				};
+				cfgs.push(RunCfg { run: i, threads, long: false });
 			}
 		}
 	}
